@@ -185,8 +185,24 @@ def check_triggers(ctx):
                                    "link variables (e.g. LinearRamp over 20000 steps: 0 refreshes, stale operators)",
                        witness={"guard": norm(g.test), "baseline_writes": bad})
             elif (kinds & EXACT_CMP) or has_ne:
-                ctx.ob("R10.5", f"exactly-guarded refresh: {inst}", True, detail={"guard": norm(g.test)},
-                       where=fu.fq, construct=f"if {norm(g.test)}: {norm(call)}")
+                # the remembered baseline must be brought up to date on every path after the guard, otherwise a potential
+                # that later returns to the stale baseline is taken for "unchanged"
+                from ..cfg import build_cfg
+                cfg = build_cfg(fn)
+                gnode = cfg.node_of(g).id
+                argtxt = norm(call.args[0]) if call.args else "?"
+                upd = [cfg.node_of(a).id for bname in sorted(baselines) for a in self_assigns.get(bname, [])
+                       if isinstance(a, ast.Assign) and norm(a.value) == argtxt]
+                wit = cfg.path(gnode, cfg.exit, skip=upd, skip_edges=("exc",))
+                ctx.ob("R10.5", f"exactly-guarded refresh keeps its baseline current: {inst}", wit is None and bool(baselines),
+                       detail={"guard": norm(g.test), "baseline": sorted(baselines),
+                               "path_without_baseline_update": cfg.describe_path(wit)[-8:] if wit else None},
+                       where=fu.fq, construct=f"if {norm(g.test)}: {norm(call)} [baseline update]", loc=loc(fu, g),
+                       message=f"after `if {norm(g.test)}` there is a path to the end of update() on which the baseline "
+                               f"{sorted(baselines)} is not set to `{argtxt}`: the reference goes stale",
+                       consequence="a vector potential that changes and later returns to the stale reference value (pulse 0 -> B -> 0) "
+                                   "is taken for unchanged and the operators of the previous value stay in use",
+                       witness={"path": cfg.describe_path(wit)[-8:] if wit else None})
             else:
                 ctx.ob("R10.5", f"refresh guard of unknown kind: {inst}", False, detail={"guard": norm(g.test)},
                        where=fu.fq, construct=f"if {norm(g.test)}: {norm(call)}", loc=loc(fu, g),
